@@ -1,5 +1,5 @@
 (* C02sim_f -- per-state simulation lemmas (M_tok state method vs S_tok), see Proofs/C02sim.v and C02simtac.v.
-   Each lemma:  R m s -> st m = X -> wk m = true -> covered m = true -> simok s (step_X m). *)
+   Each lemma:  R m s -> st m = X -> wk m = true -> plain m = true -> simok s (step_X m). *)
 From Coq Require Import NArith List Bool Arith Lia ZifyBool ZifyN.
 From Verif Require Import Sx Str.
 From Verif.Gen Require Import Entities Tokenizer.
@@ -9,24 +9,24 @@ From Verif.Proofs Require Import C02a C02dict C08 C02sim C02simtac.
 Import ListNotations.
 Local Open Scope N_scope.
 
-Lemma sim_afterAttributeValueState : forall m s, R m s -> st m = afterAttributeValueState -> wk m = true -> covered m = true -> simok s (step_afterAttributeValueState m).
+Lemma sim_afterAttributeValueState : forall m s, R m s -> st m = afterAttributeValueState -> wk m = true -> plain m = true -> simok s (step_afterAttributeValueState m).
 Proof. sim_state step_afterAttributeValueState. Qed.
 
-Lemma sim_beforeAttributeNameState : forall m s, R m s -> st m = beforeAttributeNameState -> wk m = true -> covered m = true -> simok s (step_beforeAttributeNameState m).
+Lemma sim_beforeAttributeNameState : forall m s, R m s -> st m = beforeAttributeNameState -> wk m = true -> plain m = true -> simok s (step_beforeAttributeNameState m).
 Proof. sim_state step_beforeAttributeNameState. all: batch_goal_skip. Qed.
 
-Lemma sim_commentEndBangState : forall m s, R m s -> st m = commentEndBangState -> wk m = true -> covered m = true -> simok s (step_commentEndBangState m).
+Lemma sim_commentEndBangState : forall m s, R m s -> st m = commentEndBangState -> wk m = true -> plain m = true -> simok s (step_commentEndBangState m).
 Proof. sim_state step_commentEndBangState. Qed.
 
-Lemma sim_doctypeState : forall m s, R m s -> st m = doctypeState -> wk m = true -> covered m = true -> simok s (step_doctypeState m).
+Lemma sim_doctypeState : forall m s, R m s -> st m = doctypeState -> wk m = true -> plain m = true -> simok s (step_doctypeState m).
 Proof. sim_state step_doctypeState. Qed.
 
-Lemma sim_rcdataEndTagNameState : forall m s, R m s -> st m = rcdataEndTagNameState -> wk m = true -> covered m = true -> simok s (step_rcdataEndTagNameState m).
+Lemma sim_rcdataEndTagNameState : forall m s, R m s -> st m = rcdataEndTagNameState -> wk m = true -> plain m = true -> simok s (step_rcdataEndTagNameState m).
 Proof. sim_state step_rcdataEndTagNameState. Qed.
 
-Lemma sim_rcdataEndTagOpenState : forall m s, R m s -> st m = rcdataEndTagOpenState -> wk m = true -> covered m = true -> simok s (step_rcdataEndTagOpenState m).
+Lemma sim_rcdataEndTagOpenState : forall m s, R m s -> st m = rcdataEndTagOpenState -> wk m = true -> plain m = true -> simok s (step_rcdataEndTagOpenState m).
 Proof. sim_state step_rcdataEndTagOpenState. Qed.
 
-Lemma sim_scriptDataState : forall m s, R m s -> st m = scriptDataState -> wk m = true -> covered m = true -> simok s (step_scriptDataState m).
+Lemma sim_scriptDataState : forall m s, R m s -> st m = scriptDataState -> wk m = true -> plain m = true -> simok s (step_scriptDataState m).
 Proof. sim_state step_scriptDataState. all: (batch_goal batch_emit). Qed.
 
